@@ -75,7 +75,7 @@ def features(graph):
     return f
 
 
-EXCLUDING = ('switch_in_rec', 'oneof_in_rec', 'rec_overlap',
+EXCLUDING = ('rec_overlap',
              'rec_outside_reader', 'rec_bad')
 
 
